@@ -295,6 +295,14 @@ def e2e_tol(n: int) -> float:
 
 
 
+def non_involution(rng, n):
+    """a site order p with p∘p != id (n >= 3): un-permuting twice is then visibly different from once"""
+    while True:
+        p = pc.rand_perm(rng, n)
+        if n < 3 or [p[i] for i in p] != list(range(n)):
+            return p
+
+
 def gen_e2e(rng, nmax, sign=None, ham=None):
     import math
     sign = sign or rng.choice(["nonneg", "mixed", "mixed", "negative"])
@@ -319,7 +327,8 @@ def gen_e2e(rng, nmax, sign=None, ham=None):
                 delta=[[rng.uniform(-6, 6) for _ in range(n)] for _ in range(steps)],
                 phi=[[rng.uniform(0, 1) for _ in range(n)] for _ in range(steps)],
                 ids=[f"q{i}" for i in range(n)],
-                bad=[False] * n, site_perm=pc.rand_perm(rng, n), relabel=pc.rand_perm(rng, n))
+                bad=[False] * n, site_perm=non_involution(rng, n), relabel=pc.rand_perm(rng, n),
+                kill_after=rng.randint(1, 3))
     if rng.random() < 0.3:
         case["bad"][rng.randrange(n)] = True
     return case
@@ -329,9 +338,40 @@ class InputMutated(Exception):
     pass
 
 
-def run_backend(case, order, site_perm, optimise):
+def _killed_and_resumed(data, cfg, forced, k):
+    """first k progress() calls of a fresh run (every call autosaves: the fake clock jumps 100 s per reading),
+    then the process 'dies' (the impl object is dropped) and `MPSBackend.resume(copy of the autosave)` finishes."""
+    import shutil
+    from unittest import mock
+    from harness import autosave_util as U
+    import emu_mps.mps_backend_impl as impl_mod
+    from emu_mps.mps_backend import MPSBackend
+
+    class Ticking(U.FakeClock):
+        def time(self):
+            self.now += 100.0
+            return self.now
+    with U.workdir() as tmp, U.fake_time(Ticking(0.0), also_backend=True):
+        with mock.patch.object(impl_mod.optimat, "minimize_bandwidth", forced):
+            impl = impl_mod.create_impl(data, cfg)
+            impl.init()
+        done = 0
+        while done < k and not impl.is_finished():
+            impl.progress()
+            done += 1
+        if impl.is_finished() or not impl.autosave_file.is_file():
+            raise RuntimeError(f"harness: no autosave to resume from after {done} progress calls")
+        copy = tmp / "snapshot.dat"
+        shutil.copy(impl.autosave_file, copy)
+        del impl
+        return MPSBackend.resume(copy)
+
+
+def run_backend(case, order, site_perm, optimise, resume_after=None):
     """emu-mps on the atoms listed in `order` (a relabelling of the register), with the internal site
     order forced to `site_perm` when the optimisation is on (any permutation is a legal optimiser answer).
+    `resume_after=k`: the run is killed after k `progress()` calls (an autosave is forced at every call by a
+    fake clock) and finished by `MPSBackend.resume` from a copy of the autosave file.
     -> {atom id: occupation}, {(id, id): correlation}, energy"""
     import torch
     from unittest import mock
@@ -351,16 +391,21 @@ def run_backend(case, order, site_perm, optimise):
     ev = [1.0]
     cfg = compat.mps_config(observables=[pb.Occupation(evaluation_times=ev), pb.CorrelationMatrix(evaluation_times=ev),
                                          pb.Energy(evaluation_times=ev)],
-                            optimize_qubit_ordering=optimise, dt=10, precision=1e-10)
+                            optimize_qubit_ordering=optimise, dt=10, precision=1e-10,
+                            **({"autosave_dt": 11} if resume_after is not None else {}))
     real_mb = impl_mod.optimat.minimize_bandwidth
+    use_real = case.get("real_order") and resume_after is None
 
     def forced(M):
         # the real optimiser runs on the very tensor the back-end hands it (its side effects are part of
         # the run); only its *answer* is replaced by the forced order unless the case asks for the real one
-        ans = real_mb(M, samples=3) if not case.get("real_order") else real_mb(M)
-        return ans if case.get("real_order") else torch.tensor(site_perm, dtype=torch.int64)
-    with mock.patch.object(impl_mod.optimat, "minimize_bandwidth", forced):
-        r = compat.run_mps(data, cfg)
+        ans = real_mb(M, samples=3) if not use_real else real_mb(M)
+        return ans if use_real else torch.tensor(site_perm, dtype=torch.int64)
+    if resume_after is None:
+        with mock.patch.object(impl_mod.optimat, "minimize_bandwidth", forced):
+            r = compat.run_mps(data, cfg)
+    else:
+        r = _killed_and_resumed(data, cfg, forced, resume_after)
     after = [data.interaction_matrix(t).detach().clone().view(torch.int64) for t in probe_times]
     if not all(torch.equal(a, b) for a, b in zip(before, after)):
         raise InputMutated("SequenceData.interaction_matrix(t) is not bit-identical after the run "
@@ -379,11 +424,13 @@ def e2e_oracle(case):
     ident = list(range(n))
     base = run_backend(case, ident, ident, False)
     worst = 0.0
-    for name, order, sp, opt in (("optimize_qubit_ordering on", ident, case["site_perm"], True),
-                                 ("relabelled register", case["relabel"], ident, False),
-                                 ("relabelled register + ordering on", case["relabel"], case["site_perm"], True)):
+    for name, order, sp, opt, res in (("optimize_qubit_ordering on", ident, case["site_perm"], True, None),
+                                      ("relabelled register", case["relabel"], ident, False, None),
+                                      ("relabelled register + ordering on", case["relabel"], case["site_perm"], True, None),
+                                      (f"ordering on, killed after {case.get('kill_after', 2)} progress calls and resumed",
+                                       ident, case["site_perm"], True, case.get("kill_after", 2))):
         try:
-            got = run_backend(case, order, sp, opt)
+            got = run_backend(case, order, sp, opt, res)
         except InputMutated as e:
             return f"{name}: {e}", worst
         if got[3] != [case["ids"][i] for i in order]:
